@@ -230,11 +230,14 @@ func run(c Case, r *pbt.R) {
 			case <-time.After(20 * time.Minute):
 			}
 		}
-		established := map[string]bool{}
+		established, hsFailed := map[string]bool{}, map[string]bool{}
 		rc.mu.Lock()
 		for _, cl := range rc.calls {
 			if cl.kind == "handshake" && cl.done && cl.err == nil {
 				established[cl.side] = true
+			}
+			if cl.kind == "handshake" && cl.done && cl.err != nil {
+				hsFailed[cl.side] = true
 			}
 		}
 		rc.mu.Unlock()
@@ -391,7 +394,7 @@ func run(c Case, r *pbt.R) {
 		}
 		// close_notify discipline on the wire
 		if dec != nil {
-			notify := map[string]int{}
+			notify, fatal := map[string]int{}, map[string]int{}
 			cidLen := map[string]int{}
 			if cEP.CID > 0 && sEP.CID > 0 {
 				cidLen["C"], cidLen["S"] = cEP.CID, sEP.CID
@@ -408,6 +411,9 @@ func run(c Case, r *pbt.R) {
 				for _, d := range ds {
 					if d.OK && d.Type == scen.CTAlert && len(d.Plain) == 2 && d.Plain[1] == 0 {
 						notify[ev.From]++
+					}
+					if d.OK && d.Type == scen.CTAlert && len(d.Plain) == 2 && d.Plain[0] == 2 {
+						fatal[ev.From]++
 					}
 				}
 			}
@@ -429,7 +435,10 @@ func run(c Case, r *pbt.R) {
 					peer = "C"
 				}
 				// exactly one when the application closes an established, still-open session
-				stillOpen := !(closing[peer]) // if both close at once either may have been closed by the peer's alert first
+				// if both close at once either may have been closed by the peer's alert first; a peer whose own
+				// handshake failed, or that sent a fatal alert, has ended the session from its side (DTLS 1.3
+				// protects such an alert since 4675a6b, so it arrives)
+				stillOpen := !closing[peer] && !hsFailed[peer] && fatal[peer] == 0
 				if established[name] && stillOpen && notify[name] != 1 {
 					r.Failf("C16|close_notify-missing|"+verOf(is13), "%s closed an established open session but emitted %d close_notify (tap since close: %d datagrams)", name, notify[name], len(p.Net.Events())-tapMark)
 
